@@ -415,7 +415,7 @@ MANIFEST = {
             'by every forward before being read or reported as state outside the state_dict; no '
             'buffer/parameter/sub-module registration is reachable from forward/cost/summary '
             '(stable key set, with a positive-control fixture). Equality of outputs after a '
-            'reload is not computed.',
+            'reload is not computed. No override / hook of the checkpoint protocol runs a forward pass, switches the mode or writes a tensor in place (with a positive-control fixture).',
     'note': 'Known findings: the sampling options (hard/gumbel/disable flags, selected sampler, '
             'SuperNet temperature) and discrete_cost live outside the state_dict.',
     'technique': 'storage-kind + writer/reader set analysis, recompute-before-read check, '
